@@ -10,7 +10,7 @@ from .base import gen_program, viol
 ID = "C12"
 LEVEL = "exploration"
 TIERS = {"quick": {"cases": 3000, "wall": 100, "min_nontrivial": 1500},
-         "thorough": {"cases": 80000, "wall": 1800, "min_nontrivial": 40000}}
+         "thorough": {"cases": 80000, "wall": 1800, "min_nontrivial": 20000}}
 RULE = ("statement lists from the generator rendered in free form (continuations at token boundaries and inside "
         "character literals, ';' joins, labels, construct names, comments/blank lines everywhere) and in fixed form "
         "(labels in cols 1-5, any continuation mark, arbitrary wrap column, comment lines between continuations); "
